@@ -504,6 +504,12 @@ def add_reload_resources(frng, problem, mats, tight=False):
     vehicles = problem['fleet']['vehicles']
     if problem['plan'].get('clustering') or any(required_breaks(sh) for v in vehicles for sh in v['shifts']):
         return False
+    if has_recharges({'problem': problem}):
+        # OPEN OBSERVATION (thorough tier, 1 of 4134, not reproducible): with recharge stations AND a shared resource in one problem a
+        # resource was exceeded by single-task deliveries in one dimension (neither C01-F14 nor C01-F15); the cause is not pinned
+        # down (suspected: the stale reload-interval cache of C01-F16, two marker features in one tour), so the combination is not
+        # generated; witness: corpus/open-observations/
+        return False
     shifts = [sh for v in vehicles for sh in v['shifts'] if sh.get('reloads')]
     if not shifts:
         return False
@@ -1949,6 +1955,46 @@ def gen_cluster_relation_cases(rng, n, trace=0):
     return cases
 
 
+def gen_single_reload_cases(rng, n, trace=0):
+    """n harness cases of the SINGLE-RELOAD family (seeded change C02-6: repair_solution_from_unknown leaving re-inserted markers in
+    `ignored`, so that the SAME reload is promoted and inserted a second time): 1-2 vehicles of one type with capacity 2-3 and exactly
+    ONE reload (at the depot) per shift, 6-10 single deliveries / pickups of demand 1 on a small metric matrix - two to three trips'
+    worth of demand, so the defined reload is the limiting resource - and 150-400 generations, so that the diversification operators
+    of the default heuristic (InfeasibleSearch = repair + recovery recreate among them) run.  Judged by the ordinary clause "every
+    reload stop is a DISTINCT reload defined for that very vehicle shift" (AReload).
+    NOT SWITCHED ON: tools/seed_recheck.sh C02 6 with this family in c02.generate (22 cases) gave check_exit=0 - the seeded change is
+    not reached (the unchanged tree is clean on it, 40 of 40).  Kept as a starting point: the missing ingredient is probably a solution
+    that InfeasibleSearch repairs while the reload marker is still in `ignored`"""
+    cases = []
+    while len(cases) < n:
+        m = rng.range(3, 5)
+        pos = [(0, 0)] + [(rng.range(-20, 20), rng.range(-20, 20)) for _ in range(m - 1)]
+        mat = [abs(pos[i][0] - pos[j][0]) + abs(pos[i][1] - pos[j][1]) for i in range(m) for j in range(m)]
+        cap = rng.choice([2, 2, 3])
+        nveh = rng.choice([1, 1, 2])
+        jobs = []
+        for k in range(rng.range(2 * cap * nveh + 1, 3 * cap * nveh + 2)):
+            pl = {'location': {'index': 1 + k % (m - 1)}, 'duration': rng.choice([0, 1, 3])}
+            key = 'deliveries' if rng.chance(3, 4) else 'pickups'
+            jobs.append({'id': 'j%d' % (k + 1), key: [{'places': [pl], 'demand': [1]}]})
+        v = {'typeId': 'v1', 'vehicleIds': ['v1_%d' % (i + 1) for i in range(nveh)], 'profile': {'matrix': 'car'},
+             'costs': {'fixed': rng.choice([0, 20]), 'distance': 1, 'time': rng.choice([0, 1])},
+             'shifts': [{'start': {'earliest': rfc(0), 'location': {'index': 0}}, 'end': {'latest': rfc(20000), 'location': {'index': 0}},
+                         'reloads': [{'location': {'index': 0}, 'duration': rng.choice([0, 2, 5])}]}], 'capacity': [cap]}
+        problem = {'plan': {'jobs': jobs}, 'fleet': {'vehicles': [v], 'profiles': [{'name': 'car'}]}}
+        if sorted(set(used_locations(problem))) != list(range(m)):
+            continue
+        p = {'problem': problem, 'matrices': [{'profile': 'car', 'travelTimes': mat, 'distances': mat}],
+             'meta': {'n': m, 'metric': True, 'tight': True, 'njobs': len(jobs), 'features': ['reloads', 'single-reload-family']}}
+        cfg = {'max_generations': rng.range(150, 400), 'parallelism': None, 'quota_after_polls': None, 'seed': rng.below(1000), 'outer_threads': 1}
+        if trace:
+            cfg['trace'] = trace
+        c = solve_case(p, cfg)
+        c['meta'] = p['meta']
+        cases.append(c)
+    return cases
+
+
 def gen_moved_departure_break_cases(rng, n):
     """n harness cases of the MOVED-DEPARTURE family (seeded change C03-6): one vehicle type whose shift start has NO `latest` (the
     departure-time optimisation may move the departure), 1-2 REQUIRED breaks given by exact time 3-40 s after the earliest start, and
@@ -2493,6 +2539,15 @@ def unbounded_departure_possible(problem):
     return open_shift and no_times
 
 
+def zero_distance_nonzero_duration_pair(c):
+    """a pair of different locations with routing distance 0 and duration <> 0 in some matrix of the problem"""
+    for m in c['matrices']:
+        n = matrix_size(m)
+        if any(i != j and m['distances'][i * n + j] == 0 and m['travelTimes'][i * n + j] != 0 for i in range(n) for j in range(n)):
+            return True
+    return False
+
+
 def panic_class(c, msg):
     """violation class of a solver panic, derived from the message and the structure of the input"""
     if 'ComponentRange' in msg and 'timestamp' in msg and unbounded_departure_possible(c['problem']):
@@ -2512,6 +2567,10 @@ def panic_class(c, msg):
         # pushes the start of an activity behind its window's end, estimate_departure answers f64::MAX, nothing re-checks, and the
         # writer's format_time unwraps the timestamp
         return 'writer-panic-required-break-movable-departure-f64-max'
+    if 'expected to have duration to be zero' in msg and c['problem']['plan'].get('clustering') and zero_distance_nonzero_duration_pair(c):
+        # finding C01-F18 / C02-F8 / C03-F11: CommuteInfo::is_zero_distance (models/solution/route.rs) hits unreachable!() for a commute
+        # between two locations whose routing distance is 0 and whose duration is not
+        return 'solver-panic-cluster-commute-with-zero-distance-and-nonzero-duration'
     if 'cannot get activity by idx' in msg and has_resources(c):
         # finding C01-F16 / C02-F6 / C03-F10: SharedResourceState (reloads.rs) reads the reload intervals cached in the route state
         # and indexes the tour with them (get_activity_by_idx ... expect) after the tour has changed
